@@ -449,15 +449,32 @@ impl UntypedProgram {
                             }
                         },
                         ConstExprEnum::Max(args) | ConstExprEnum::Min(args) => {
+                            if !matches!(const_def.ty, Type::Unsigned(_) | Type::Signed(_)) {
+                                let e = TypeErrorEnum::ExpectedNumberType(const_def.ty.clone());
+                                errors.extend(vec![Some(TypeError::new(e, meta))]);
+                            }
                             for arg in args {
                                 check_const_expr(arg, const_def, errors, const_defs, const_deps);
                             }
                         }
                         ConstExprEnum::Add(lhs, rhs) | ConstExprEnum::Sub(lhs, rhs) => {
+                            if !matches!(const_def.ty, Type::Unsigned(_) | Type::Signed(_)) {
+                                let e = TypeErrorEnum::ExpectedNumberType(const_def.ty.clone());
+                                errors.extend(vec![Some(TypeError::new(e, meta))]);
+                            }
                             check_const_expr(lhs, const_def, errors, const_defs, const_deps);
                             check_const_expr(rhs, const_def, errors, const_defs, const_deps);
                         }
                     }
+                }
+                if !matches!(
+                    const_def.ty,
+                    Type::Bool | Type::Unsigned(_) | Type::Signed(_)
+                ) {
+                    // only Boolean and integer constants are supported
+                    let e = TypeErrorEnum::ExpectedBoolOrNumberType(const_def.ty.clone());
+                    errors.extend(vec![Some(TypeError::new(e, const_def.meta))]);
+                    continue;
                 }
                 check_const_expr(
                     &const_def.value,
